@@ -110,6 +110,7 @@ class GenCfg:
     max_reg_up: int = 0           # measurements may use the registry of an ancestor this many levels up
     durations: List[float] = field(default_factory=lambda: list(DYADIC))
     annot_fields: bool = True     # random integer fields on detectors/observables
+    entry_points: bool = False    # sub-circuits also nested through add(<composite>), add_sub_circuit, add_declarative_circuit; operations through add_operation
     empty_barrier: bool = False   # also Barrier / CoordinateShift over an empty qubit list (accepted by the library)
     max_total_leaves: int = 60    # bound on unrolled leaf count (keeps relation depth and cost bounded)
     min_sub_items: int = 0
@@ -192,12 +193,26 @@ def program_strategy(cfg: GenCfg):
         for i in range(n):
             if remaining <= 0:
                 break
+            earlier_subs = [j for j, x in enumerate(items) if is_sub(x)]
+            if cfg.entry_points and earlier_subs and remaining > 0 and draw(st.integers(0, 7)) == 0:
+                # the very same sub-circuit object is added once more (every add nests its own copy)
+                j = draw(st.sampled_from(earlier_subs))
+                if unrolled_leaf_count(items[j]["sub"]) <= remaining:
+                    import copy as _copy
+                    remaining -= unrolled_leaf_count(items[j]["sub"])
+                    items.append({"sub": _copy.deepcopy(items[j]["sub"]), "reuse": j,
+                                  "via": draw(st.sampled_from(["add", "add_composite", "add_sub_circuit"]))})
+                    continue
             if depth < cfg.max_depth and draw(st.integers(0, 99)) < cfg.p_sub:
                 sub = draw(circuit(depth + 1, remaining))
                 remaining -= unrolled_leaf_count(sub)
                 items.append({"sub": sub})
+                if cfg.entry_points:
+                    items[-1]["via"] = draw(st.sampled_from(["add", "add", "add_composite", "add_sub_circuit", "add_declarative_circuit"]))
             else:
                 items.append(draw(op_item(i, items, depth)))
+                if cfg.entry_points and draw(st.integers(0, 3)) == 0:
+                    items[-1]["via"] = "add_operation"
                 remaining -= 1
         c: Dict[str, Any] = {"reps": reps, "items": items}
         if cfg.reg_reps and (depth > 0 or cfg.top_reps) and (draw(st.booleans()) if reps > 1 else draw(st.integers(0, 3)) == 0):
@@ -293,12 +308,29 @@ def build(program, built: Optional[Built] = None, peek=None) -> Built:
         for i, it in enumerate(circ["items"]):
             p = path + (i,)
             if is_sub(it):
-                child = make_decl(it["sub"], p)
-                fill(child, it["sub"], p, ancestors + [decl])
+                if "reuse" in it:
+                    child = b.passed[path + (it["reuse"],)]
+                    src = path + (it["reuse"],)                   # the re-used content, also reachable under the new path
+                    for table in (b.decl, b.handles, b.passed, b.links):
+                        for q_, c_ in list(table.items()):
+                            if len(q_) > len(src) and q_[:len(src)] == src:
+                                table[p + q_[len(src):]] = c_
+                    b.decl[p] = child
+                else:
+                    child = make_decl(it["sub"], p)
+                    fill(child, it["sub"], p, ancestors + [decl])
                 if peek is not None:
                     peek(decl, p, it)
                 b.passed[p] = child
-                b.handles[p] = decl.add(child)
+                via = it.get("via", "add")
+                if via == "add_composite":                     # generic entry point given the bare composite
+                    b.handles[p] = decl.add(child.circuit_structure)
+                elif via == "add_sub_circuit":
+                    b.handles[p] = decl.add_sub_circuit(child.circuit_structure)
+                elif via == "add_declarative_circuit":
+                    b.handles[p] = decl.add_declarative_circuit(child)
+                else:
+                    b.handles[p] = decl.add(child)
                 if it.get("srel"):
                     # the nested block is re-scheduled relative to an earlier item of the same circuit (add() itself only
                     # sequences a sub-circuit implicitly; the relation of the returned block is assignable)
@@ -309,7 +341,7 @@ def build(program, built: Optional[Built] = None, peek=None) -> Built:
                     peek(decl, p, it)
                 op = make_operation(it, p, path, decl, ancestors, b)
                 b.passed[p] = op
-                b.handles[p] = decl.add(op)
+                b.handles[p] = decl.add_operation(op) if it.get("via") == "add_operation" else decl.add(op)
 
     top = make_decl(program["top"], ())
     b.circuit = top
